@@ -11,6 +11,10 @@ open Lean Scico.Wire Scico.Jaxpr
   * `run`   : the same program executed by `Scico.Jaxpr.run` at `Float` under the scalar interpretation below, on the
               given input leaves (`x`: list of bit patterns) with the literal table `consts` → output leaves.
 
+  * `applydesc` : `{rows: [[[operand, entry, coefficient]…]…], xs: [[…]…]}` → `Scico.Jaxpr.applyDescG` (the row-finite
+              sparse matrix family proved linear in `Proofs/JaxprArray.lean`) evaluated at `Float` on the operand
+              arrays `xs`, entries `0 … rows.length-1` (harness/jaxpr_family.py compares with the JAX primitive).
+
   scalar interpretation (`V = Float`):
     lit1 _ = 0, lit0 k = consts[k];  linAll 0 = Σ args, 1 = −a, 2 = a (copy), 3 = where(p ≠ 0, a, 0), 4 = a − b;
     bilinear _ = a·b;  divLike _ = a/b;  realPart _ = a;  conj _ = a;  nonlin 0 = |a|, 1 = max(a,b), 2 = a², _ = a·|a|
@@ -77,6 +81,11 @@ def scalarInterp (consts : List Float) : Interp Float where
 
 instance : Zero Float := ⟨0.0⟩
 
+def termOfJson (j : Json) : Option (Term Float) :=
+  match getList? j with
+  | some [k, e, c] => do some (← getNat? k, ← getNat? e, ← getFloat? c)
+  | _ => none
+
 def handler : Handler := fun op j =>
   match op with
   | "check" => do
@@ -95,6 +104,13 @@ def handler : Handler := fun op j =>
       let y := run (scalarInterp consts) p xv
       some (ok (jFs (List.ofFn y)))
     else some (err "shape")
+  | "applydesc" => do
+    let rows ← (← fList? j "rows").mapM (fun r => (getList? r).bind (·.mapM termOfJson))
+    let xs ← (← fList? j "xs").mapM getFloats?
+    let rowsA := rows.toArray
+    let xsF : List (Nat → Float) := xs.map fun l => let a := l.toArray; fun i => a.getD i 0
+    let y := applyDescG (fun i => rowsA.getD i []) xsF
+    some (ok (jFs ((List.range rows.length).map y)))
   | _ => none
 
 def main : IO Unit := mainLoop handler
